@@ -89,8 +89,9 @@ func genC14(seed uint64, tier string) *RunConfig {
 			if r.IntN(4) == 0 {
 				key += ":emptied" // the ConfigMap lost its last key
 			}
-			if typ == "delete" {
-				typ = "update"
+			if typ == "delete" && !strings.HasSuffix(key, ":emptied") {
+				// a removed ConfigMap is delivered as an emptied one
+				key += ":emptied"
 			}
 		}
 		rc.Ops = append(rc.Ops, Op{Type: "event", Kind: kind, Note: typ + "," + note, Key: key, Ms: i})
